@@ -66,7 +66,9 @@ pub fn make_where_clause<'a>(
         return Ok(where_clause);
     }
 
-    for lifetime in generics.lifetimes() {
+    for lifetime_param in generics.lifetimes() {
+        // Only the lifetime itself: a `LifetimeParam` may carry its own bounds (`'b: 'a`).
+        let lifetime = &lifetime_param.lifetime;
         where_clause
             .predicates
             .push(parse_quote!(#lifetime: 'static))
